@@ -131,6 +131,7 @@ def gen_blur(rng, tie=False):
                 for i in range(d):
                     for j in range(i):
                         H[i][j] = dec(rng, -1.5, 1.5, 2)
+                common.sparse_tilt(rng, H)
             pos = [[fstr(Fraction(lo[k]) + Fraction(rng.randint(0, 1000), 1000) * Fraction(L[k])) for k in range(d)] for _ in range(N)]
             pos = [[fstr(round(Fraction(v), 3)) for v in row] for row in pos]
             if rng.random() < 0.4:
